@@ -1,5 +1,6 @@
 //! smoke test of the world machinery (not a property)
 use crate::world::*;
+use grin_core::core::hash::Hashed;
 use std::time::Instant;
 
 pub fn run(_args: &[String]) -> i32 {
@@ -34,7 +35,7 @@ pub fn run(_args: &[String]) -> i32 {
 	b.refresh().unwrap();
 	println!("A {:?}", a.info(false, 1).unwrap().1);
 	println!("B {:?}", b.info(false, 1).unwrap().1);
-	let opts = ProjOpts { slots: vec![s1.id], heights: true };
+	let opts = ProjOpts { slots: vec![s1.id], heights: true, canon_ids: false };
 	let pa = project_wallet(a, &opts);
 	println!("{}", serde_json::to_string(&pa).unwrap());
 	let t = Instant::now();
@@ -52,6 +53,15 @@ pub fn run(_args: &[String]) -> i32 {
 	// fork test: build 2 blocks on height-2 ancestor
 	let h = w2.node.height();
 	println!("height {}", h);
+	// fork: replace the last 2 blocks by a 3-block branch mined to B
+	let tip_before = w2.node.head_header();
+	let became = w2.fork(h - 2, 3, "B", &[]);
+	println!("fork became head: {} height {} (old tip {} still main: {})", became, w2.node.height(), tip_before.height,
+		w2.header_at(tip_before.height).hash() == tip_before.hash());
+	let a2 = w2.w("A");
+	println!("A before scan {:?}", a2.info(true, 1).map(|i| (i.1.total, i.1.amount_reverted)));
+	a2.scan(Some(1), false).unwrap();
+	println!("A after scan {:?}", a2.info(true, 1).map(|i| (i.1.total, i.1.amount_reverted)));
 	w2.close();
 	let d = raw_dump(&WalletH::data_dir(&dir2, "A"));
 	println!("raw dump {} entries", d.len());
